@@ -252,7 +252,9 @@ class Feedback:
             self.parent = self.report.get_current_group()
         if self.field_names is not None:
             for field_name in self.field_names:
-                self.fields[field_name] = kwargs.get(field_name)
+                # Declared fields default to None, but not when they were given in `fields`
+                if field_name not in self.fields:
+                    self.fields[field_name] = kwargs.get(field_name)
         for key, value in kwargs.items():
             self.fields[key] = value
         if 'location' not in self.fields and self.location is not None:
